@@ -228,6 +228,40 @@ pub fn run_c11_cell(c: &Cell) -> CellResult {
             viol = Some(Violation { props: vec!["C11"], class: format!("refused-send-leaves-trace/{}", wire::kind_name(p.kind)), msg: format!("{desc}: state changed by a refused send: {d}"), step: s.w.step });
         }
     }
+    // compile-time-checked send: same outcome as send() wherever it compiles at all
+    if viol.is_none() {
+        let mut s2 = reach(c);
+        if needs_fresh_id(&p) {
+            s2.w.acquire();
+        }
+        let table = compile_time_table();
+        let ri = match c.role {
+            Role::Client => 0,
+            Role::Server => 1,
+            Role::Any => 2,
+        };
+        let implemented = table.iter().find(|(q, _)| q.v == p.v && q.kind == p.kind).map(|(_, r)| r[ri]).unwrap_or(false);
+        match s2.w.ep.checked_send(&p) {
+            Ok(Some(evs2)) => {
+                s.w.stats.hit("c11_checked_send_compared");
+                if !implemented {
+                    viol = Some(Violation { props: vec!["C11"], class: "checked-send-probe-disagrees".into(), msg: desc.clone(), step: 0 });
+                } else if evs2 != evs {
+                    viol = Some(Violation { props: vec!["C11"], class: format!("checked-send-differs-from-send/{}", wire::kind_name(p.kind)), msg: format!("{desc}: checked_send -> {} but send -> {}", evs_short(&evs2), evs_short(&evs)), step: s.w.step });
+                }
+            }
+            Ok(None) => {
+                if implemented {
+                    viol = Some(Violation { props: vec!["C11"], class: "checked-send-probe-disagrees".into(), msg: desc.clone(), step: 0 });
+                } else if !refused {
+                    viol = Some(Violation { props: vec!["C11"], class: format!("compile-time-vs-run-time/{}", wire::kind_name(p.kind)), msg: format!("{desc}: checked_send does not compile for this role but send() accepts the packet"), step: 0 });
+                }
+            }
+            Err(e) => {
+                viol = Some(Violation { props: vec![], class: "harness/build".into(), msg: e, step: 0 });
+            }
+        }
+    }
     CellResult { desc, viol, log: s.w.log.clone(), refused, steps: s.w.step as u64, stats: s.w.stats.clone() }
 }
 
